@@ -1,0 +1,73 @@
+//! Public face of the verification hooks for `sync::Cache` (only with
+//! `--cfg mini_moka_verif`). See `sync/base_cache/verif_hooks.rs`.
+
+use super::Cache;
+use crate::{
+    sync::base_cache::{VerifDeque, VerifEntryMeta},
+    verif::MockClock,
+};
+
+use std::{
+    borrow::Borrow,
+    hash::{BuildHasher, Hash},
+    sync::Arc,
+};
+
+impl<K, V, S> Cache<K, V, S> {
+    /// Installs a mock expiration clock and returns its handle.
+    pub fn verif_set_clock(&self) -> MockClock {
+        self.base.verif_set_clock()
+    }
+
+    /// Lengths of the (read, write) operation queues.
+    pub fn verif_channel_lens(&self) -> (usize, usize) {
+        self.base.verif_channel_lens()
+    }
+
+    pub fn verif_is_sync_running(&self) -> bool {
+        self.base.verif_is_sync_running()
+    }
+}
+
+impl<K, V, S> Cache<K, V, S>
+where
+    K: Hash + Eq,
+    S: BuildHasher + Clone,
+{
+    /// Number of entries physically held by the hash map.
+    pub fn verif_map_len(&self) -> usize {
+        self.base.inner.verif_map_len()
+    }
+
+    /// Visits every entry physically held by the hash map (expired or not).
+    pub fn verif_for_each_entry(&self, f: impl FnMut(&K, &V, VerifEntryMeta)) {
+        self.base.inner.verif_for_each_entry(f)
+    }
+
+    /// Visits the keys of one internal queue from its front (oldest) to its back.
+    pub fn verif_deque_keys(&self, which: VerifDeque, f: impl FnMut(&K)) {
+        self.base.inner.verif_deque_keys(which, f)
+    }
+
+    pub fn verif_sketch_enabled(&self) -> bool {
+        self.base.inner.verif_sketch_enabled()
+    }
+
+    pub fn verif_sketch_resets(&self) -> u32 {
+        self.base.inner.verif_sketch_resets()
+    }
+
+    /// The popularity estimate the cache would use for `key` right now.
+    pub fn verif_frequency<Q>(&self, key: &Q) -> u8
+    where
+        Arc<K>: Borrow<Q>,
+        Q: Hash + Eq + ?Sized,
+    {
+        self.base.inner.verif_frequency(key)
+    }
+
+    /// Structural validity of the map/queue pair; see the internal hook.
+    pub fn verif_walk(&self, quiescent: bool) -> Result<(), String> {
+        self.base.inner.verif_walk(quiescent)
+    }
+}
